@@ -103,11 +103,12 @@ Definition consistent_b (tol : Q) (base other : obs) : bool :=
 Definition same_b (a b : obs) : bool :=
   all2 (fun x y => Z.eqb (fst x) (fst y) &&
                    match snd x, snd y with None, None => true | Some p, Some q => Qeq_bool p q | _, _ => false end) a b.
-Inductive unknown_policy := UMissing | UBaseline.
+Inductive unknown_policy := UMissing | UBaseline | UAny.
 Definition unknown_ok (pol : unknown_policy) (vocab : list Z) (o : obs) : bool :=
   forallb (fun e => match number vocab (fst e), pol with
                     | None, UMissing => match snd e with None => true | Some _ => false end
                     | None, UBaseline => match snd e with Some _ => true | None => false end
+                    | None, UAny => true
                     | Some _, _ => true
                     end) o.
 
